@@ -230,6 +230,11 @@ type SeqOptions struct {
 	// ForceSize gives chunk i an exact uncompressed size (LZMA chunks are then
 	// filled with long rep matches).
 	ForceSize map[int]int
+	// FarChunk > 0: that chunk consists of matches reaching back beyond 8 MiB.
+	FarChunk int
+	// ForceCompressed gives LZMA chunk i an exact compressed size (1<<16 is
+	// the largest the chunk header can state).
+	ForceCompressed map[int]int
 	// Garbage[i] replaces chunk i by these raw bytes (invalid control bytes).
 	Garbage map[int][]byte
 }
@@ -310,7 +315,19 @@ func Realise(r *sim.Rng, kinds []string, o SeqOptions) *ChunkSeq {
 				maxc = r.Range(1<<21-600, 1<<21)
 			}
 			before := len(e.Hist)
-			if isForced {
+			target, isFull := o.ForceCompressed[ci]
+			if !isFull && !isForced && o.BigChunk && nops < 200000 && r.Chance(1, 3) {
+				// a chunk filled to the very limit of the 16-bit compressed-size field
+				target, isFull = 1<<16-r.Intn(3)*r.Intn(2), true
+			}
+			if o.FarChunk > 0 && ci == o.FarChunk {
+				farOps(r, e, r.Range(3, 40))
+				if len(e.Hist) == before {
+					e.Lit(byte(r.Intn(256)))
+				}
+			} else if isFull {
+				fillCompressed(r, e, target)
+			} else if isForced {
 				if forced > 8 {
 					genOpsBounded(r, e, r.Range(0, 6), forced-2)
 				}
@@ -346,6 +363,36 @@ func Realise(r *sim.Rng, kinds []string, o SeqOptions) *ChunkSeq {
 	cs.ContentUpTo = append(cs.ContentUpTo, len(e.Hist))
 	cs.Content = append([]byte(nil), e.Hist...)
 	return cs
+}
+
+// fillCompressed adds operations until the segment, finished now, has exactly
+// target compressed bytes: incompressible literals first, then one trial
+// operation at a time, rolled back if it overshoots, from expensive to cheap.
+func fillCompressed(r *sim.Rng, e *reflzma.Encoder, target int) {
+	for e.PendingBytes() < target-24 {
+		e.Lit(byte(r.Intn(256)))
+	}
+	for tries := 0; e.PendingBytes() < target && tries < 200000; tries++ {
+		s := e.Snapshot()
+		for cand := 0; cand < 4; cand++ {
+			switch {
+			case cand == 0:
+				e.Lit(byte(r.Intn(256)))
+			case cand == 1 && e.Avail() > 0:
+				e.Lit(e.Hist[len(e.Hist)-1])
+			case cand == 2 && e.Avail() > int64(e.Rep()[0]):
+				e.ShortRep()
+			case cand == 3 && e.Avail() > int64(e.Rep()[0]):
+				e.RepMatch(0, 2)
+			default:
+				continue
+			}
+			if e.PendingBytes() <= target {
+				break
+			}
+			e.Restore(s)
+		}
+	}
 }
 
 // genOpsBounded is genOps with a guard on the compressed size of the segment.
@@ -471,4 +518,107 @@ func GenXZ(r *sim.Rng, big bool) *XZ {
 	}
 	x.Stream = refxz.BuildStream(check, blocks)
 	return x
+}
+
+// Far is a generated stream of more than 8 MiB of content whose last
+// operations reach back further than 8 MiB (the library's default reader
+// window): only a decoder that honours the declared dictionary size, rather
+// than its own default, decodes it.
+type Far struct {
+	Stream  []byte
+	Content []byte
+	Format  string // xz | lzma | lzma2
+	Dict    int64
+}
+
+// GenFar generates a far-distance stream in the given format. The bulk of the
+// content is produced by long rep matches, so the stream itself stays small.
+func GenFar(r *sim.Rng, format string) *Far {
+	db := byte(sim.Pick(r, []int{24, 25, 26})) // 12, 16, 24 MiB
+	ds, _ := reflzma.DictSizeFromByte(db)
+	f := &Far{Format: format, Dict: ds}
+	bulk := r.Range(8<<20+4096, 9<<20)
+	if format == "lzma" {
+		p := RandProps(r, false)
+		e := reflzma.NewEncoder(p, ds)
+		genOps(r, e, r.Range(20, 200), 4096)
+		if len(e.Hist) == 0 {
+			e.Lit(byte(r.Intn(256)))
+		}
+		for len(e.Hist) < bulk {
+			if int64(e.Rep()[0])+1 > e.Avail() {
+				e.Lit(byte(r.Intn(256)))
+				continue
+			}
+			e.RepMatch(0, 273)
+		}
+		farOps(r, e, r.Range(3, 40))
+		mode := sim.Pick(r, []string{"marker", "size", "both"})
+		if mode != "size" {
+			e.EOS()
+		}
+		body := e.Finish()
+		h := make([]byte, 13)
+		h[0] = p.Byte()
+		h[1], h[2], h[3], h[4] = byte(ds), byte(ds>>8), byte(ds>>16), byte(ds>>24)
+		size := uint64(len(e.Hist))
+		if mode == "marker" {
+			size = 1<<64 - 1
+		}
+		for i := 0; i < 8; i++ {
+			h[5+i] = byte(size >> (8 * uint(i)))
+		}
+		f.Stream, f.Content = append(h, body...), append([]byte(nil), e.Hist...)
+		return f
+	}
+	// LZMA2: chunks hold at most 2 MiB, so the bulk is spread over forced-size
+	// chunks without a dictionary reset; the last chunk carries the far matches.
+	kinds := []string{"LRND"}
+	force := map[int]int{0: 2 << 20}
+	for i, left := 1, bulk-2<<20; left > 0; i++ {
+		n := 2 << 20
+		if left < n {
+			n = left
+		}
+		kinds = append(kinds, sim.Pick(r, []string{"L", "L", "LR", "LRN"}))
+		force[i] = n
+		left -= n
+	}
+	kinds = append(kinds, "L", "end")
+	cs := Realise(r, kinds, SeqOptions{MaxOpsPerChunk: 40, DictSize: ds, ForceSize: force, FarChunk: len(kinds) - 2})
+	f.Content = cs.Content
+	if format == "lzma2" {
+		f.Stream = cs.Stream
+		return f
+	}
+	check := sim.Pick(r, []byte{refxz.CheckNone, refxz.CheckCRC32, refxz.CheckCRC64, refxz.CheckSHA256})
+	f.Stream = refxz.BuildStream(check, []refxz.BlockSpec{{Data: cs.Stream, Content: cs.Content, DictByte: db}})
+	return f
+}
+
+// farOps encodes n matches whose distances lie beyond 8 MiB, mixed with
+// literals and reps of those distances.
+func farOps(r *sim.Rng, e *reflzma.Encoder, n int) {
+	for i := 0; i < n; i++ {
+		av := e.Avail()
+		if av <= 8<<20+1 {
+			return
+		}
+		switch r.Intn(4) {
+		case 0:
+			e.Lit(byte(r.Intn(256)))
+		case 1:
+			if int64(e.Rep()[0])+1 <= av {
+				e.RepMatch(0, r.Range(2, 40))
+				continue
+			}
+			fallthrough
+		default:
+			d := int64(8<<20) + 1 + int64(r.Intn(int(av-8<<20)))
+			if r.Chance(1, 4) {
+				d = av
+			}
+			e.Match(d, r.Range(2, 273))
+		}
+	}
 }
